@@ -379,6 +379,47 @@ func (w *World) heapSenders() map[*ssa.Function]int64 {
 			out[op.Fn] = cmd
 		}
 	}
+	// a single entry point `request(cmd, data)` that sends whatever command it is given: the
+	// request constructors are its callers, keyed by the constant they pass
+	for fn, cmd := range out {
+		if cmd != -1 {
+			continue
+		}
+		pidx := -1
+		for _, b := range fn.Blocks {
+			for _, in := range b.Instrs {
+				if st, ok := in.(*ssa.Store); ok {
+					if f, ok := fieldOf(st.Addr); ok && f.Owner == "mpb.heapRequest" && f.Name == "cmd" {
+						if par, ok := w.origin(st.Val).(*ssa.Parameter); ok {
+							for i, q := range fn.Params {
+								if q == par {
+									pidx = i
+								}
+							}
+						}
+					}
+				}
+			}
+		}
+		if pidx < 0 {
+			continue
+		}
+		out[fn] = -3
+		for _, site := range w.callers[fn] {
+			if site.Common().StaticCallee() != fn || pidx >= len(site.Common().Args) || site.Parent().Synthetic != "" {
+				continue
+			}
+			k, ok := constInt(site.Common().Args[pidx])
+			if !ok {
+				continue
+			}
+			if _, dup := out[site.Parent()]; dup {
+				out[site.Parent()] = -2
+			} else {
+				out[site.Parent()] = k
+			}
+		}
+	}
 	return out
 }
 
@@ -793,7 +834,11 @@ func checkHeapTable(w *World, r *Report, rule string) {
 	sort.Slice(cmds, func(i, j int) bool { return cmds[i] < cmds[j] })
 	// constructors: cmd -> boxed payload type
 	payload := map[int64]types.Type{}
-	for fn, cmd := range w.heapSenders() {
+	senders := w.heapSenders()
+	for fn, cmd := range senders {
+		if cmd == -3 {
+			continue // the generic entry point: its callers are the constructors
+		}
 		if cmd < 0 {
 			r.Undecided(rule, "request constructor "+fnShort(fn), w.pos(fn.Pos()), "cannot determine the command constant / more than one send")
 			continue
@@ -804,6 +849,16 @@ func checkHeapTable(w *World, r *Report, rule string) {
 					if f, ok := fieldOf(st.Addr); ok && f.Owner == "mpb.heapRequest" && f.Name == "data" {
 						if mi, ok := st.Val.(*ssa.MakeInterface); ok {
 							payload[cmd] = mi.X.Type()
+						}
+					}
+				}
+				// payload boxed for the generic entry point
+				if c, ok := in.(*ssa.Call); ok {
+					if h := c.Call.StaticCallee(); h != nil && senders[h] == -3 {
+						for _, a := range c.Call.Args {
+							if mi, ok := a.(*ssa.MakeInterface); ok {
+								payload[cmd] = mi.X.Type()
+							}
 						}
 					}
 				}
